@@ -45,6 +45,14 @@ def outcome(thunk):
 
 def run_prog(prog, args, rng, controlled=True, is_async=False, config=None):
     """-> dict(impl=(status,val), ref=(status,val), counters, ctl, dag, registry, keys) ; build errors as impl=('build-raise', e)"""
+    from . import terms as _terms
+    del _terms.COPIED[:]
+    r_ = _run_prog(prog, args, rng, controlled, is_async, config)
+    r_["copied"] = list(_terms.COPIED)
+    return r_
+
+
+def _run_prog(prog, args, rng, controlled=True, is_async=False, config=None):
     keys = Keys()
     kvalue._K.cur = keys
     registry = {}
@@ -473,6 +481,9 @@ def run(pid, tier, seed, res, p_sub=None, p_flag=None, only=None):
             if len(prog["stmts"]) >= 2:
                 res.distinct.add(hashlib.sha1(json.dumps([prog, [enc(a, Keys()) for a in args]], sort_keys=True).encode()).hexdigest()[:12])
             base = dict(engine="kvalue", prog=prog, args=[enc(a, Keys()) for a in args], config=how, is_async=is_async)
+            if r.get("copied"):
+                for p_ in ["C01"] + (["C20"] if has_subs(prog) else []):
+                    res.hit(p_, "monitor", "value(s) %s were deep-copied on their way through the DAG: a node (or the caller) then holds a different object than in the plain function, where arguments travel by reference" % (r["copied"][:3],), dict(base, kind="monitor"))
             msg = compare(r)
             if msg is not None:
                 props_ = ["C01"]
